@@ -151,9 +151,9 @@ def run(ck):
     if ck.replay is not None:
         walks = [ck.replay["steps"]]
     else:
-        level = 5 if ck.thorough else 4
+        level = 5 if ck.thorough else 3
         menu = '"small"'     # the graph uses the small menu of server lists, the simulated behaviours the full one
-        nsim = 600 if ck.thorough else 60
+        nsim = 600 if ck.thorough else 80
         depth = 14 if ck.thorough else 10
         ts = in_bg("sim", lambda: ck.tlc("TunnelCtl", "MC_TunnelCtl_publish_sim.cfg", constants={"SimDepth": depth, "Menu": '"full"'},
                                          simulate={"num": nsim}, depth=depth + 3, timeout=600))
